@@ -33,6 +33,10 @@ def chains(ck, seed, thorough, corrupt=None):
     # between the samples and tend to become outliers) with frequent subtree updates: the subtree move then picks inner
     # blocks and hands them the outliers (it edits its input tree in place)
     combos += [("semi-adapted", 0.21, 0.6), ("bootstrap", 0.21, 0.6)]
+    # a finite time limit that is used up at once / after a moment (it may expire inside the burn-in): whatever is
+    # recorded must still be complete forests
+    timed = {len(combos): 0.0, len(combos) + 1: 0.003, len(combos) + 2: 0.0}
+    combos += [("semi-adapted", 0.2, 0.0), ("fully-adapted", 0, 0.5), ("bootstrap", 0, 0.0)]
 
     def peaked(peak, G=7):
         r = np.ones(G, dtype=int)
@@ -53,8 +57,8 @@ def chains(ck, seed, thorough, corrupt=None):
         data = gridoracle.data_from_tables(tab, outlier_prob=outl)
         rec = recorder.ChainRecorder(inner_moves=True)
         res, err = recorder.run_chain(data, seed * 1000 + ci, rec=rec, proposal=prop, outlier_prob=outl, subtree_update_prob=sub,
-                                      num_iters=(120 if thorough else 40), burnin=2, num_particles=(6 if nested else 4))
-        label = "%s|outl=%s|sub=%s|n=%d" % (prop, outl, sub, n)
+                                      num_iters=(120 if thorough else 40), burnin=2, num_particles=(6 if nested else 4), max_time=timed.get(ci, float("inf")))
+        label = "%s|outl=%s|sub=%s|n=%d" % (prop, outl, sub, n) + ("|max_time=%s" % timed[ci] if ci in timed else "")
         if err:
             ck.violation("C07|chain|exception:%s" % err.split(":")[0], "chain aborted: %s [%s]" % (err, label), {"config": label, "events": len(rec.events)})
         for ev in rec.events:
@@ -197,6 +201,66 @@ def dp_candidates_on(ck, tree, vname, key, n):
     return count
 
 
+def library_driving(ck, thorough):
+    """The samplers driven as a library (as the repository's tests do): ONE kernel shared by the whole-tree and the subtree
+    particle-Gibbs samplers, data-point and prune-regraft moves in between, outlier modelling on, and no clearing of the
+    proposal memo tables between sweeps.  Every tree a sampler returns must be a well-formed forest over all data points
+    (and stay one while the next moves run)."""
+    import numpy as np
+    from .. import chainlib
+    from phyclone.tree import FSCRPDistribution, TreeJointDistribution, Tree
+    from phyclone.smc.kernels import SemiAdaptedKernel, FullyAdaptedKernel, BootstrapKernel
+    from phyclone.smc.utils import RootPermutationDistribution
+    from phyclone.mcmc.particle_gibbs import ParticleGibbsTreeSampler, ParticleGibbsSubtreeSampler
+    from phyclone.mcmc.gibbs_mh import DataPointSampler, PruneRegraphSampler
+    from phyclone.utils.dev import clear_proposal_dist_caches
+    n = 5
+    nret = 0
+    for ki, Kcls in enumerate((SemiAdaptedKernel, FullyAdaptedKernel, BootstrapKernel)):
+        for sd in range(6 if thorough else 3):
+            clear_proposal_dist_caches()
+            data = chainlib.make_data(n, 1, 9, 11 + sd + 3 * ki, 0.2)
+            rng = np.random.default_rng(100 * ki + sd)
+            td = TreeJointDistribution(FSCRPDistribution(1.0))
+            kern = Kcls(td, rng, outlier_proposal_prob=0.1, perm_dist=RootPermutationDistribution())
+            movers = [("particle Gibbs", ParticleGibbsTreeSampler(kern, rng, num_particles=8, resample_threshold=0.5)),
+                      ("subtree particle Gibbs", ParticleGibbsSubtreeSampler(kern, rng, num_particles=8, resample_threshold=0.5)),
+                      ("data-point move", DataPointSampler(td, rng, outliers=True)),
+                      ("prune-regraft", PruneRegraphSampler(td, rng))]
+            tree = Tree.get_single_node_tree(data)
+            label = "%s, seed %d" % (Kcls.__name__, sd)
+            stop = False
+            for it in range(40 if thorough else 25):
+                for mname, mv in (movers if it % 2 else movers[:2]):
+                    try:
+                        tree = mv.sample_tree(tree)
+                        nret += 1
+                        k_ = absstate.project(tree, full=True)[0]
+                        if absstate.data_ids(k_) != set(range(n)):
+                            ck.violation("C07|library|data_not_conserved|%s" % mname.replace(" ", "_"), "sweep %d: the %s returned a tree holding data %s of %s [%s, no cache clears]" % (
+                                it, mname, sorted(absstate.data_ids(k_)), list(range(n)), label), {"kernel": Kcls.__name__, "seed": sd, "sweep": it})
+                            stop = True
+                    except absstate.Inconsistent as ex:
+                        ck.violation("C07|library|malformed|%s" % mname.replace(" ", "_"), "sweep %d: the %s returned a malformed tree: %s [%s, no cache clears]" % (it, mname, ex, label),
+                                     {"kernel": Kcls.__name__, "seed": sd, "sweep": it})
+                        stop = True
+                    except Exception as ex:  # noqa
+                        import traceback
+                        if not any("/phyclone/" in f.filename for f in traceback.extract_tb(ex.__traceback__)):
+                            raise
+                        ck.violation("C07|library|exception|%s" % mname.replace(" ", "_"), "sweep %d: the %s raised %s: %s [%s, no cache clears]" % (it, mname, type(ex).__name__, ex, label),
+                                     {"kernel": Kcls.__name__, "seed": sd, "sweep": it})
+                        stop = True
+                    if stop:
+                        break
+                if stop:
+                    break
+            ck.nontrivial("library:" + label)
+    clear_proposal_dist_caches()
+    ck.evaluations += nret
+    ck.extra["library_driving_returned_trees"] = nret
+
+
 def run(corrupt=None):
     ck = Check("C07")
     env.use_repo()
@@ -264,6 +328,8 @@ def run(corrupt=None):
         ck.model_drift("recorded conditional-SMC swarms are not a behaviour of PGibbsSM (start %s)" % json.dumps(tr["s0"]))
     ck.extra["swarm_traces_recorded"] = total
     graft_histories(ck)
+    library_driving(ck, thorough)
+    c06.extract_then_edit(ck, "C07", 4)
     # --- seeded end-to-end chains
     rejected = chains(ck, seed, thorough, corrupt=corrupt)
     ck.extra["trace_moves_rejections"] = [list(x) for x in (rejected or [])][:10]
